@@ -603,7 +603,7 @@ func main() {
 			vm = msetMethods(tt)
 		}
 		im := ifaceMethods(it)
-		fmt.Fprintf(w, "impl %d %s %s t: %s | v: %s | %s | %s\n", i, b01(types.Implements(tt, it)), b01(types.IsInterface(tt)),
+		fmt.Fprintf(w, "impl %d %s %s,%s t: %s | v: %s | %s | %s\n", i, b01(types.Implements(tt, it)), b01(types.IsInterface(tt)), kindName(tt),
 			table(b, im), table(b, vm), s.methodsTerm(vm), s.term(ti.Underlying()))
 	}
 }
@@ -611,6 +611,29 @@ func main() {
 // ",cc" suffix of the why field: are the two types comparable (usable with == and as map keys)?
 func cmpFlags(a, b types.Type) string {
 	return "," + b01(types.Comparable(a)) + b01(types.Comparable(b))
+}
+
+// the descriptor kind of a type (which rt struct ssa/abitype.go puts in front of the uncommon part)
+func kindName(t types.Type) string {
+	switch types.Unalias(t).Underlying().(type) {
+	case *types.Struct:
+		return "struct"
+	case *types.Pointer:
+		return "pointer"
+	case *types.Chan:
+		return "chan"
+	case *types.Slice:
+		return "slice"
+	case *types.Map:
+		return "map"
+	case *types.Signature:
+		return "func"
+	case *types.Array:
+		return "array"
+	case *types.Interface:
+		return "interface"
+	}
+	return "basic"
 }
 
 func b01(b bool) string {
